@@ -239,6 +239,11 @@ def run(ctx):
             alle = bool(wcal & {"get_all_edges", "get_edges_for_node"})
             ctx.require(both or alle, "R-C13-6", "both-directions", "the neighbour-community weights are built from outgoing and incoming edges", "the neighbour-community weights are built from %s only: on a directed graph the incoming edges of a node are ignored, the maximised quantity is not the modularity change and the local-move loop has no monotone potential (it can run forever, e.g. on two directed 3-cycles joined by one edge)" % sorted(wcal & {"get_successors_map", "get_predecessors_map", "get_successor_nodes", "get_predecessor_nodes"}), loc_str(t.span))
 
+    # ------------------------------------------------------------------ R-C13-8
+    from engines import check_unwrapped_callee_kinds
+
+    n8 = check_unwrapped_callee_kinds(ctx, prog, flows, "R-C13-8", ("algorithms::community::louvain",), "louvain_partitions panics instead of returning its list of levels")
+    ctx.floor("R-C13-8", "unwrapped_crate_calls_in_louvain", n8, 5)
     # ------------------------------------------------------------------ R-C13-7
     # Bookkeeping of the community totals is conservative: while a node is being evaluated its degree is taken out
     # of its community's total and afterwards put into the chosen community's total -- the SAME amount.  If the two
